@@ -578,7 +578,13 @@ where
     let component_outputs = match check_for_duplicate_output_names(maybe_duplicated_outputs) {
         Ok(outputs) => outputs,
         Err(duplicates) => {
-            return Err(make_duplicated_output_names_error(&ir_vertices, duplicates));
+            // A fold's count output belongs to this component's outputs,
+            // but is described by the fold's own root vertex.
+            let mut all_vertices = ir_vertices;
+            for fold in folds.values() {
+                collect_ir_vertices_recursive_step(&mut all_vertices, &fold.component);
+            }
+            return Err(make_duplicated_output_names_error(&all_vertices, duplicates));
         }
     };
 
